@@ -146,7 +146,7 @@ pub fn build_bitboard(pos: &Pos) -> Bitboard {
 }
 
 /// F(T, K): the two kings on any two distinct squares plus, for each entry of `kinds`, a piece of that
-/// kind (optional if `optional`), of either colour, on any free square (pawns not on ranks 1/8); side
+/// kind (optional and of either colour if `optional`; present with colours alternating white/black otherwise), on any free square (pawns not on ranks 1/8); side
 /// to move `turn` (concrete); any subset of castling rights consistent with king/rook home squares;
 /// e.p. square none or any square consistent with a just-made double push; half-move clock 0..4095;
 /// full-move number 1..99_999; side not to move not in check.
@@ -168,7 +168,8 @@ pub fn any_pos(kinds: &[u8], turn: u8, optional: bool) -> (Pos, Bitboard) {
         if present {
             let s = sym::sq();
             sym::assume(sq[s as usize] == EMPTY);
-            let c = sym::u8();
+            // optional cells: either colour; exact cells: colours alternate white/black in list order
+            let c = if optional { sym::u8() } else { (i % 2) as u8 };
             sym::assume(c < 2);
             if k == P { sym::assume(s >= 8 && s < 56); }
             sq[s as usize] = mk(k, c);
